@@ -45,6 +45,9 @@ chk("C05", "fault_enumeration", "deterministic simulation with crash injection: 
 chk("C18", "exploration", "deterministic simulation of storage programs: one seeded program of point ops, batches (incl. reuse after write/close), forward/reverse iterators over all bound shapes and nested prefix views executed on MemDB, GoLevelDB (real files, clean close/reopen), PrefixDB stacks and a sorted-map model; results and full root contents compared after every step",
     "Seeded sequential programs over a byte alphabet containing 0x00 and 0xFF with nested prefixes incl. 0xFF runs; every result is compared with a sorted-map model and across backends; prefix isolation is checked on the shared parent store after every step.", "Sequential programs plus clean restart only: batch atomicity under concurrent readers or power loss is not decided. GoLevelDB itself (third party) is trusted. The sorted-map model is the specification.", "DESIGN.md §5 C18")
 
+chk("C17", "fault_enumeration", "deterministic simulation with storage fault injection: every single storage call (by kind and index) of every probe operation fails once on a fork of the simulated disk; error-or-fault-free-answer for reads, no success after a failed write, reopen to old-or-new after failed write operations; seeded two-fault sequences",
+    "Single-fault positions are enumerated exhaustively per explored (history, probe); histories and probes (17 read kinds, 6 write kinds incl. import) are sampled. Signatures carry the API, the failing call kind, the innermost iavl call site of the injected failure and the symptom.", "A failed storage call returns an error and has no effect. After a reported error the handle is discarded. APIs without an error result are outside the statement. " + N, "DESIGN.md §5 C17")
+
 NOT_YET = {
 }
 
